@@ -509,6 +509,122 @@ func main() {
 			}
 		}
 	}
+	// ---- sequences on one wired handler x operationId variants ----
+	// Every request of the alphabet is served FIRST by its own fresh handler; then that handler
+	// serves the whole alphabet in order. Each answer must be the one the reference demands,
+	// i.e. the one the request gets alone; a failure that the request does not show alone gets
+	// the class suffix /after-earlier-requests.
+	{
+		seqU := []string{"/a", "/b", "/a/{p}", "/{p}/b", "/"}
+		seqMeths := []string{"GET", "POST"}
+		if r.Thorough() {
+			seqU = append(seqU, "/a/{p}/c")
+			seqMeths = []string{"GET", "POST", "DELETE", "get"}
+		}
+		var specs [][]OpC
+		for _, set := range enum.Subsets(len(seqU), 2, 3) {
+			var ops []OpC
+			for _, ti := range set {
+				ops = append(ops, OpC{Method: "GET", Template: seqU[ti]})
+			}
+			specs = append(specs, ops)
+		}
+		specs = append(specs,
+			[]OpC{{"GET", "/a"}, {"POST", "/a"}},
+			[]OpC{{"GET", "/a/{p}"}, {"DELETE", "/a/{p}"}, {"GET", "/b"}},
+			[]OpC{{"GET", "/"}, {"POST", "/"}, {"GET", "/a"}},
+			[]OpC{{"GET", "/a"}, {"POST", "/a"}, {"GET", "/a/{p}"}, {"POST", "/a/{p}"}})
+		idModes := []string{"none", "dup", "mix", ""}
+		type seqDesc struct {
+			d   Desc
+			via string
+		}
+		var sds []seqDesc
+		for _, ops := range specs {
+			for _, ids := range idModes {
+				sds = append(sds, seqDesc{Desc{Base: "", Ops: ops, IDs: ids}, "routes"}, seqDesc{Desc{Base: "/api", Ops: ops, IDs: ids}, "api"})
+			}
+		}
+		alphabet := func(base string) []Req {
+			var out []Req
+			for _, p := range []string{"/a", "/b", "/a/x", "/x/b", "/", "/a/b", "/c", "/a/x/c"} {
+				for _, m := range seqMeths {
+					out = append(out, Req{m, base + p})
+				}
+			}
+			return out
+		}
+		r.Set("sweep_sequences-on-one-handler", map[string]any{"descriptions": len(sds), "operation_id_variants": idModes, "request_alphabet": alphabet(""),
+			"handlers_per_description": len(alphabet("")), "entry_points": []string{"routes (base \"\")", "api (base /api)"}})
+		var rejected int64
+		enum.Parallel(len(sds), stop, func(k int) {
+			sd := sds[k]
+			doc, err := sd.d.load()
+			if err != nil {
+				if sd.d.IDs == "dup" {
+					mu.Lock()
+					rejected++
+					mu.Unlock()
+					return
+				}
+				r.Fail("description-rejected", err.Error(), Case{Desc: sd.d, Via: sd.via, Method: "GET", Target: "/"})
+				return
+			}
+			S := alphabet(sd.d.Base)
+			w := newWire()
+			var evals, nontrivial int64
+			out := map[string]int64{}
+			insts := make([]*built, len(S))
+			fresh := make([]string, len(S))
+			serve := func(b *built, q Req, before []Req, alone string, judged bool) string {
+				req, err := w.parse(rawRequest(q.Method, q.Target))
+				if err != nil {
+					return ""
+				}
+				o := b.serve(req)
+				evals++
+				class, what, _ := judge(b.routes, req.Method, req.URL.EscapedPath(), o)
+				if class != "" && judged && alone == "" {
+					class, what = afterHistory(class, what, len(before))
+				}
+				if class != "" {
+					r.Fail(class, what, Case{Desc: sd.d, Via: sd.via, Before: append([]Req(nil), before...), Method: q.Method, Target: q.Target})
+				}
+				switch {
+				case o.Panic != "":
+					out["panic"]++
+				case len(o.Runs) > 0:
+					out[fmt.Sprintf("dispatched-%dparams", len(o.Runs[0].Params))]++
+					nontrivial++
+				default:
+					out[fmt.Sprintf("refused-%d", o.Status)]++
+					if o.Status == 405 {
+						nontrivial++
+					}
+				}
+				return class
+			}
+			for i, q := range S {
+				insts[i] = wireUp(sd.d, doc, sd.via)
+				fresh[i] = serve(insts[i], q, nil, "", false)
+			}
+			for i := range S {
+				before := []Req{S[i]}
+				for j, q := range S {
+					serve(insts[i], q, before, fresh[j], true)
+					before = append(before, q)
+				}
+			}
+			r.Eval(evals)
+			r.Nontrivial(nontrivial)
+			mu.Lock()
+			for k, v := range out {
+				totals[k] += v
+			}
+			mu.Unlock()
+		})
+		r.Set("descriptions_with_duplicate_operation_ids_rejected_by_loader", rejected)
+	}
 	for k, v := range totals {
 		r.Outcome(k, v)
 	}
@@ -518,5 +634,5 @@ func main() {
 		"net/http's request parsing (http.ReadRequest, URL.EscapedPath) and net/url.PathUnescape are trusted",
 		"descriptions in which two operations of one method have the same shape are wired by the library in Go map order; one order is explored per run",
 	)
-	r.Finish("every description of the stated families (template sets x method assignment x base path; template shapes x every ordered selection of distinct placeholder names from the stated name alphabet) x every request line of the family for its base path (symbol sequences up to the stated length x methods x trailing decorations x right/noisy/absent/wrong base prefix); one evaluation = one request served by the real handler chain and compared with the reference dispatcher; non-trivial = a handler ran, or the answer was 405, or the oracle failed (distinct by construction: descriptions are distinct sets, request lines are de-duplicated per description; the sweep debug-logging-on repeats the method-centred descriptions with middleware.Debug = true against the same expectations and serves each request the stated number of times, each serving being one evaluation)", !ownCut)
+	r.Finish("every description of the stated families (template sets x method assignment x base path; template shapes x every ordered selection of distinct placeholder names from the stated name alphabet) x every request line of the family for its base path (symbol sequences up to the stated length x methods x trailing decorations x right/noisy/absent/wrong base prefix); one evaluation = one request served by the real handler chain and compared with the reference dispatcher; non-trivial = a handler ran, or the answer was 405, or the oracle failed (distinct by construction: descriptions are distinct sets, request lines are de-duplicated per description; the sweep debug-logging-on repeats the method-centred descriptions with middleware.Debug = true against the same expectations and serves each request the stated number of times, each serving being one evaluation; the sweep sequences-on-one-handler serves, for every description x operationId variant, every request of its alphabet first on a fresh handler and then the whole alphabet in order on that same handler, each serving being one evaluation judged by the same reference)", !ownCut)
 }
